@@ -31,6 +31,7 @@ def main():
     ap.add_argument("--src")
     ap.add_argument("--also", default="")
     ap.add_argument("--tier", default="quick")
+    ap.add_argument("--id", help="name under /verif/seeded (default <property>-<k>)")
     a = ap.parse_args()
     src = a.src or f"/tmp/seed_wt/{a.prop}/_seeded"
     patch = os.path.join(src, f"patch{a.k}.diff")
@@ -38,7 +39,7 @@ def main():
     notes = os.path.join(src, f"notes{a.k}.md")
     wt = f"/tmp/seed_eval_{a.prop}_{a.k}_{os.getpid()}"
     sh(["git", "-C", "/repo", "worktree", "add", "-q", "--detach", wt, "HEAD"])
-    meta = {"property": a.prop, "change": int(a.k), "repo_head": sh(["git", "-C", "/repo", "rev-parse", "HEAD"]).stdout.strip()}
+    meta = {"property": a.prop, "change": (a.id or f"{a.prop}-{a.k}"), "repo_head": sh(["git", "-C", "/repo", "rev-parse", "HEAD"]).stdout.strip()}
     try:
         env = dict(os.environ, PYTHONPATH=wt, PYTHONDONTWRITEBYTECODE="1")
         d0 = sh(["/venv/bin/python", "-W", "ignore", demo], cwd=wt, env=env, timeout=900)
@@ -71,7 +72,7 @@ def main():
         meta["caught_by"] = [p for p, v in checks.items() if v["exit"] == 1]
         meta["ran"] = (f"git apply patch.diff in a scratch worktree of /repo HEAD; pytest tests (55); demo with and without the "
                        f"change; VERIF_REPO=<worktree> ./check.py <id> --tier {a.tier}")
-        dst = os.path.join(VERIF, "seeded", f"{a.prop}-{a.k}")
+        dst = os.path.join(VERIF, "seeded", a.id or f"{a.prop}-{a.k}")
         os.makedirs(dst, exist_ok=True)
         shutil.copy(patch, os.path.join(dst, "patch.diff"))
         shutil.copy(demo, os.path.join(dst, "demo.py"))
